@@ -3,6 +3,7 @@
 From Coq Require Import String List NArith ZArith Bool.
 From IonV Require Import Base.Wire Data.Ion Bin.BinWriter Bin.BinWriterP Text.TextOut Text.TextWriter Text.TextWriterP.
 From IonV Require Import Props.C12text.
+From IonV Require Export Props.C19bin.
 Import ListNotations.
 
 (* text Writer, every call sequence, every write budget k, compact and pretty: the bytes accepted
